@@ -229,6 +229,25 @@ def sa_test_games(n, seed, count=3):
     return games[:count]
 
 
+def random_sa_games(n, seed, count=3, grid=2):
+    """Generic (unstructured) superadditive games: v(S) = best split of S + a random non-negative increment, exactly representable."""
+    rnd = random.Random(f"rsa/{seed}/{n}")
+    games = []
+    for _ in range(count):
+        g = {0: Fraction(0)}
+        for S in sorted(range(1, 2 ** n), key=popcount):
+            best = Fraction(0) if popcount(S) > 1 else Fraction(rnd.randint(-6, 6), grid)
+            A = (S - 1) & S
+            while A:
+                B = S & ~A
+                if A < B:
+                    best = max(best, g[A] + g[B])
+                A = (A - 1) & S
+            g[S] = best + (Fraction(rnd.randint(0, 9), grid) if popcount(S) > 1 else 0)
+        games.append(g)
+    return games
+
+
 def sam_test_games(n, seed, count=3):
     """Superadditive and monotone non-increasing games: -min(k,|S|), -max of singleton weights, 0."""
     games = [{S: Fraction(-min(2, popcount(S))) for S in range(2 ** n)}]
